@@ -155,6 +155,12 @@ func (rs *RecordSet) ReadFrom(r io.Reader) (int64, error) {
 		return 4, nil
 	}
 
+	if int(size) > d.remain {
+		// The record set cannot be larger than the message that carries it.
+		d.discardAll()
+		return int64(limit - d.remain), io.ErrUnexpectedEOF
+	}
+
 	stream := &RecordStream{
 		Records: make([]RecordReader, 0, 4),
 	}
